@@ -70,7 +70,9 @@ def step (s : St) (toks : List String) : Option (St × String × String) :=
       some ({ cfg := c' }, m, if cr.username.contains ':' then "err" else "ok")
   | "get" :: rest => do
       let addr ← hx rest "addr"
-      some (s, showCred (s.cfg.get addr), "*")
+      -- `want`: what the harness's own bookkeeping of the document expects (docker's format)
+      let sp := match kv rest "want" with | some w => "cred " ++ w | none => "*"
+      some (s, showCred (s.cfg.get addr), sp)
   | "del" :: rest => do
       let addr ← hx rest "addr"
       some ({ cfg := s.cfg.delete addr }, "ok", "ok")
